@@ -50,6 +50,7 @@ fn site_id(s: &str) -> &'static str {
         "run.before_notify" => "before_notify",
         "run.end" => "end",
         "run.unlocked" => "unlocked",
+        "run.done" => "done",
         _ => "other",
     }
 }
@@ -66,6 +67,9 @@ fn show(st: &St) -> String {
 pub fn run(file: &str) {
     std::panic::set_hook(Box::new(|_| {}));
     sched::install_hook();
+    // the pool threads append to `in_flight` in whatever order they win the mutex: with a single
+    // pool thread the natural order is ascending, so make the hook produce a different legal order
+    nucleo::verif::set_in_flight_permutation(Some(Arc::new(|v: &mut Vec<u32>| v.reverse())));
     let f = std::io::BufReader::new(std::fs::File::open(file).unwrap());
     let stdout = std::io::stdout();
     let mut out = std::io::BufWriter::new(stdout.lock());
@@ -89,7 +93,7 @@ pub fn run(file: &str) {
             1,
         ));
         let nptr = &mut *nucleo as *mut Nucleo<u64>;
-        let mut injectors: HashMap<u64, Injector<u64>> = HashMap::new();
+        let mut injectors: HashMap<u64, Arc<Injector<u64>>> = HashMap::new();
         let mut threads: HashMap<u64, sched::Thread> = HashMap::new();
         let mut ui: Option<sched::Thread> = None;
         let mut obs: Vec<String> = Vec::new();
@@ -124,7 +128,7 @@ pub fn run(file: &str) {
                 "inj" => {
                     let h: u64 = p[1].parse().unwrap();
                     if ui.is_none() {
-                        injectors.insert(h, nucleo.injector());
+                        injectors.insert(h, Arc::new(nucleo.injector()));
                     }
                     obs.push("-".into());
                 }
@@ -132,7 +136,8 @@ pub fn run(file: &str) {
                     let h: u64 = p[1].parse().unwrap();
                     let h2: u64 = p[2].parse().unwrap();
                     if let Some(i) = injectors.get(&h).cloned() {
-                        injectors.insert(h2, i);
+                        // a real Injector::clone (a new handle on the same stream)
+                        injectors.insert(h2, Arc::new((*i).clone()));
                     }
                     obs.push("-".into());
                 }
@@ -194,13 +199,10 @@ pub fn run(file: &str) {
                     match runner.wait_parked(3000) {
                         St::Parked(site, _) => {
                             runner.go();
-                            if site == "run.end" {
-                                // returns from the closure and drops the guard: wait for the unlock
-                                let t0 = std::time::Instant::now();
-                                while unsafe { (*nptr).verif_worker_locked() } && t0.elapsed().as_secs() < 5 {
-                                    std::thread::yield_now();
-                                }
-                                obs.push(if unsafe { (*nptr).verif_worker_locked() } { "STILLLOCKED".into() } else { "Yunlocked".into() });
+                            if site == "run.done" {
+                                // the closure returns; the pool thread goes idle
+                                std::thread::sleep(std::time::Duration::from_millis(2));
+                                obs.push("Yidle".into());
                             } else {
                                 obs.push(show(&runner.wait_parked(5000)));
                             }
@@ -220,8 +222,12 @@ pub fn run(file: &str) {
                             let it = snap.get_matched_item(n).unwrap();
                             data.push(format!("{}", it.data));
                         }
+                        let ptxt: Vec<String> = snap.pattern().column_pattern(0).atoms.iter().map(|a| a.needle_text().to_string()).collect();
+                        let ptxt = ptxt.join(" ");
+                        let pid = PATTERNS.iter().position(|t| *t == ptxt).map_or(-1, |x| x as i64);
                         obs.push(format!(
-                            "O c={} m={} d={} inj={} n={}",
+                            "O p={} c={} m={} d={} inj={} n={}",
+                            pid,
                             snap.item_count(),
                             if ms.is_empty() { "-".to_string() } else { ms.join(",") },
                             if data.is_empty() { "-".to_string() } else { data.join(",") },
